@@ -8,8 +8,8 @@ from harness import zones as Z
 
 ID = "C05"
 BACKENDS = ("py", "rs")
-GEN_MODULES = ("DTArith",)
-MIN_THEOREMS = 33
+GEN_MODULES = ("DTArith", "Interval:source", "Interval:new", "Interval:init", "Interval:units", "Interval:negabs", "Interval:endpoints")
+MIN_THEOREMS = 38
 US = D.US
 DAY = 86400 * US
 YMAX = Z.YMAX_QUICK
